@@ -185,6 +185,14 @@ def concretise(op, n, nw, shift=0, last_only=False):
         for p in (3, 4):
             if op[p] is not None:
                 op[p] = op[p] % n
+    if kind == 'ctor':
+        if op[1] == 'clone':
+            op[2] = op[2] % n
+        if op[3] is not None:
+            op[3] = (op[3] + shift) % n
+        for p in (4, 5, 6):
+            if op[p] is not None:
+                op[p] = [x if x is None or graph.is_foreign(x) else (x + shift) % n for x in op[p]]
     if kind == 'new_task':
         if op[2] is not None:
             op[2] = (op[2] + shift) % n
@@ -336,6 +344,28 @@ def run_op(world, op):
         return ws[op[1]].remove(T(op[2]))
     if k == 'wbs_remove_all':
         return ws[op[1]].remove_all(id_in_=list(op[2]))
+    if k == 'ctor':
+        kw = {}
+        if op[3] is not None:
+            kw['parent'] = T(op[3])
+        if op[4] is not None:
+            kw['children'] = seq(op[4])
+        if op[5] is not None:
+            kw['predecessors'] = seq(op[5])
+        if op[6] is not None:
+            kw['successors'] = seq(op[6])
+        extra = op[7]
+        if extra == 'wbs':
+            kw['wbs'] = ws[0]
+        elif extra == 'all_children':
+            kw['all_children'] = []
+        elif extra == 'id' and op[1] == 'clone':
+            kw['id'] = 4711
+        elif extra:
+            kw['zone'] = 5
+        t = world.Task(op[2], 'n', rank=0, **kw) if op[1] == 'new' else ts[op[2]].clone(**kw)
+        world.add(t)
+        return t
     if k == 'new_task':
         kw = {}
         if op[2] is not None:
@@ -353,7 +383,7 @@ def run_op(world, op):
 
 
 HIER = {'adopt_children', 'set_parent', 'set_children', 'floordiv', 'append', 'insert', 'remove', 'move', 'sort', 'reorder',
-        'remove_all', 'bulk_parent', 'wbs_remove', 'wbs_remove_all', 'new_task'}
+        'remove_all', 'bulk_parent', 'wbs_remove', 'wbs_remove_all', 'new_task', 'ctor'}
 DEPS = {'dep_lshift', 'dep_rshift', 'set_preds', 'set_succs', 'lshift', 'rshift', 'pred_append', 'pred_remove', 'succ_append',
         'succ_remove', 'pred_remove_all', 'succ_remove_all', 'list_lshift', 'list_rshift'}
 
